@@ -146,6 +146,61 @@ Theorem C11_form_decode_field_kind : forall cur s l,
 Proof. exact set_wpt_kind. Qed.
 Print Assumptions C11_form_decode_field_kind.
 
+(* ---- the key of a field is the same at the two sites, for every tag ----
+   setStructToForm and mapFormToStruct each read the `form` tag on their own.  [set_fields_k] /
+   [map_fields_k] are the two loops with the reader of the tag explicit ([whole_tag]: the whole
+   value of Tag.Get, [cut_comma]: the name up to the first comma, as encoding/json reads tags). *)
+
+(* the model of /repo is the instance in which BOTH sites read the whole tag *)
+Theorem C11_form_sites_read_whole_tag : forall fs data,
+  form_marshal (SStruct fs) = Ok (form_marshal_struct_k whole_tag fs) /\
+  form_unmarshal data (TStruct fs) = omap RStruct (form_unmarshal_struct_k whole_tag data fs).
+Proof. exact form_sites_whole_tag_lemma. Qed.
+Print Assumptions C11_form_sites_read_whole_tag.
+
+(* For EVERY pair of readers that make the same thing of every tag occurring in the struct (at
+   any depth) and every struct that is well formed as they show it: round trip.  Nothing is
+   assumed about the tags themselves: commas, spaces, reserved characters, any bytes. *)
+Theorem C11_form_key_agreement_roundtrip : forall tr_enc tr_dec fs,
+  tags_agree tr_enc tr_dec fs = true ->
+  wf_struct (retag tr_enc fs) = true ->
+  form_unmarshal_struct_k tr_dec (form_marshal_struct_k tr_enc fs) (zero_fields fs) = Ok fs.
+Proof. exact form_key_agreement_roundtrip_lemma. Qed.
+Print Assumptions C11_form_key_agreement_roundtrip.
+
+(* the readers of /repo *)
+Theorem C11_form_whole_tag_roundtrip : forall fs,
+  wf_struct fs = true ->
+  form_unmarshal_struct_k whole_tag (form_marshal_struct_k whole_tag fs) (zero_fields fs) = Ok fs.
+Proof. exact form_whole_tag_roundtrip_lemma. Qed.
+Print Assumptions C11_form_whole_tag_roundtrip.
+
+(* Agreement is necessary: whenever the two sites compute different keys for a field, the
+   decoder succeeds and leaves that field zero, whatever value was encoded (for every pair of
+   readers, every field name, every tag, every leaf). *)
+Theorem C11_form_key_agreement_necessary : forall tr_enc tr_dec name tag l,
+  eff_name name (tr_enc tag) <> eff_name name (tr_dec tag) ->
+  let fs := FCons name tag true (FLeaf l) FNil in
+  form_unmarshal_struct_k tr_dec (form_marshal_struct_k tr_enc fs) (zero_fields fs)
+  = Ok (zero_fields fs).
+Proof. exact form_key_disagreement_lemma. Qed.
+Print Assumptions C11_form_key_agreement_necessary.
+
+(* one site cutting the tag at the first comma while the other keeps the whole tag loses every
+   field whose tag contains a comma (scalar, array, slice, nested): encoder side ... *)
+Theorem C11_form_encoder_cuts_comma_refuted :
+  exists fs, wf_struct fs = true /\ wf_struct (retag cut_comma fs) = true /\
+    form_unmarshal_struct_k whole_tag (form_marshal_struct_k cut_comma fs) (zero_fields fs) <> Ok fs.
+Proof. exact form_encoder_cuts_comma_refuted_lemma. Qed.
+Print Assumptions C11_form_encoder_cuts_comma_refuted.
+
+(* ... and decoder side *)
+Theorem C11_form_decoder_cuts_comma_refuted :
+  exists fs, wf_struct fs = true /\ wf_struct (retag cut_comma fs) = true /\
+    form_unmarshal_struct_k cut_comma (form_marshal_struct_k whole_tag fs) (zero_fields fs) <> Ok fs.
+Proof. exact form_decoder_cuts_comma_refuted_lemma. Qed.
+Print Assumptions C11_form_decoder_cuts_comma_refuted.
+
 (* ---- the code as pinned violates both halves of the property (four defects, all repaired) ---- *)
 
 (* {A: []int{1,2,3}} `form:"a"` encodes as a=3&a=2&a=1 and decodes to [3 2 1] *)
@@ -316,3 +371,14 @@ Proof. exact form_repaired_on_witnesses. Qed.
 (* a nil *string as destination: an error now *)
 Example C11_plain_nil_destination : plain_unmarshal (str "x") DStrNil = Err.
 Proof. reflexivity. Qed.
+
+(* tags with commas are inside the round-trip domain of the code of /repo: the whole tag is the
+   key (escaped on the wire), and the same struct is well formed for a comma-cutting reader too *)
+Example C11_comma_tags_example :
+  wf_struct witness_comma = true /\ wf_struct (retag cut_comma witness_comma) = true /\
+  tags_agree whole_tag cut_comma witness_comma = false /\
+  form_marshal_struct_k whole_tag witness_comma
+    = str "%2Comitempty=b&%2Comitempty=&%2Comitempty=c%2Cd&name%2Comitempty=x&pair%2Cstring=18446744073709551615&pair%2Cstring=7&zip%2Comitempty=-2147483648&zip%2Comitempty=2147483647" /\
+  form_unmarshal_struct_k whole_tag (form_marshal_struct_k whole_tag witness_comma) (zero_fields witness_comma)
+    = Ok witness_comma.
+Proof. vm_compute. repeat split. Qed.
